@@ -365,7 +365,7 @@ func init() {
 	engine.Register(&engine.Prop{
 		ID: "C01",
 		Shards: func(th bool) []string {
-			s := []string{"bytes", "short", "typed", "timeformat"}
+			s := []string{"bytes", "short", "typed", "timeformat", "js"}
 			for wi := range c01Wraps {
 				for pi := range c01Payloads {
 					s = append(s, fmt.Sprintf("routes:%d:%d", wi, pi))
@@ -374,7 +374,7 @@ func init() {
 			return s
 		},
 		Run:  c01Run,
-		Rule: "payload x source x value-route^d x emit-form x wrapper^e. Sources (28): context string, struct / pointer-struct field, map[string]string and map[string]interface{} value, []string / []interface{} / nested slice element (literal and variable index), whole []string / []interface{}, Go helper returning string / interface{}, user-function result, double- and back-quoted literal, and the trusted ones: template.HTML variable, HTMLer, raw(x), helper returning template.HTML, template.HTML / HTMLer struct fields, []template.HTML and []interface{} elements, map[string]template.HTML value, mixed []interface{}, a value that is both HTMLer and fmt.Stringer; and a plain fmt.Stringer (by value and by pointer), whose text is a Go string and therefore escaped; values of a named string type (directly, in a slice, as a struct field: printed escaped or not at all); debug(x), whose pre tags are markup and whose printed argument is data. Value routes (12, incl. a template function with literal text before its return): \"\"+x, x+\"\", x+x, x+raw(), [x][0], [x,x], [raw(),x,raw()], {k:x}[k], Go identity helpers (string / interface{}), user function. Emit forms (11, incl. partial data under the key the layout mechanism uses, yield): output tag, return from if / for / fn, let then emit, loop variable, partial data, contentOf data, function argument emitted inside the body, Go helper result when the helper was called with a block. Wrappers (12): top, if, else, for, fn body, helper block via Block() / BlockWith(), contentFor->contentOf (with and without data), contentOf default block, partial, partial with layout. A reference evaluator over the route gives the expected atom list (plain | trusted | literal frame); the output is walked along it: a plain atom must appear with every < > & ' \" as an entity (any spelling) and every other byte unchanged, a trusted atom byte-identical, nothing dropped, nothing emitted twice. (timeformat) every payload as literal text of the context's TIME_FORMAT, a time printed in 5 ways. (typed) every scalar source and depth-1 route passed to Go helpers whose parameter (fixed, second, variadic) is typed template.HTML: plain strings are refused or stay escaped, trusted HTML passes verbatim. (bytes) every single byte 0x01..0xFF and (short) every string of length <=3 over {< > & ' \" a &amp; é 世 \\xff} through every source and the direct emit forms. Non-trivial: payload contains a special character and the route has depth >= 1.",
+		Rule: "payload x source x value-route^d x emit-form x wrapper^e. Sources (28): context string, struct / pointer-struct field, map[string]string and map[string]interface{} value, []string / []interface{} / nested slice element (literal and variable index), whole []string / []interface{}, Go helper returning string / interface{}, user-function result, double- and back-quoted literal, and the trusted ones: template.HTML variable, HTMLer, raw(x), helper returning template.HTML, template.HTML / HTMLer struct fields, []template.HTML and []interface{} elements, map[string]template.HTML value, mixed []interface{}, a value that is both HTMLer and fmt.Stringer; and a plain fmt.Stringer (by value and by pointer), whose text is a Go string and therefore escaped; values of a named string type (directly, in a slice, as a struct field: printed escaped or not at all); debug(x), whose pre tags are markup and whose printed argument is data. Value routes (12, incl. a template function with literal text before its return): \"\"+x, x+\"\", x+x, x+raw(), [x][0], [x,x], [raw(),x,raw()], {k:x}[k], Go identity helpers (string / interface{}), user function. Emit forms (11, incl. partial data under the key the layout mechanism uses, yield): output tag, return from if / for / fn, let then emit, loop variable, partial data, contentOf data, function argument emitted inside the body, Go helper result when the helper was called with a block. Wrappers (12): top, if, else, for, fn body, helper block via Block() / BlockWith(), contentFor->contentOf (with and without data), contentOf default block, partial, partial with layout. A reference evaluator over the route gives the expected atom list (plain | trusted | literal frame); the output is walked along it: a plain atom must appear with every < > & ' \" as an entity (any spelling) and every other byte unchanged, a trusted atom byte-identical, nothing dropped, nothing emitted twice. (js) every single-value source as data of a .html partial rendered under a JavaScript content type: JSEscape of the HTML-escaped (plain) or verbatim (trusted) value. (timeformat) every payload as literal text of the context's TIME_FORMAT, a time printed in 5 ways. (typed) every scalar source and depth-1 route passed to Go helpers whose parameter (fixed, second, variadic) is typed template.HTML: plain strings are refused or stay escaped, trusted HTML passes verbatim. (bytes) every single byte 0x01..0xFF and (short) every string of length <=3 over {< > & ' \" a &amp; é 世 \\xff} through every source and the direct emit forms. Non-trivial: payload contains a special character and the route has depth >= 1.",
 		Bound: func(th bool) string {
 			if th {
 				return "9 payloads x value routes d<=2 x 10 emit forms x wrappers e<=2"
@@ -502,6 +502,43 @@ func c01Run(t *engine.T, shard string) {
 						return "passed", nil
 					})
 				}
+			}
+		}
+	case "js":
+		// a partial with a non-.js name rendered under a JavaScript content type is JS-escaped as a whole: what the
+		// partial's output tags escaped stays escaped (entities are not decoded on the way), trusted HTML is only JS-escaped
+		for _, p := range c01Payloads {
+			for _, x := range c01Exprs(p, 0) {
+				if len(x.val.atoms) != 1 || x.val.atoms[0].kind == "optplain" {
+					continue
+				}
+				p, x := p, x
+				t.Case(fmt.Sprintf("js-partial payload=%q %s", p, x.name), strings.ContainsAny(p, `<>&'"`), func() (string, *engine.Fail) {
+					e := &c01Env{p: p, partials: map[string]string{}}
+					c := e.context()
+					c.Set("contentType", "application/javascript")
+					e.partials["row.html"] = `[<%= d %>]`
+					out, err := Render(c01Prelude+`A|<%= partial("row.html", {"d": `+x.src+`}) %>|B`, c)
+					if err != nil {
+						return "", engine.Failf("error", "unexpected error %v", err)
+					}
+					inner := p
+					if x.val.atoms[0].kind == "plain" {
+						inner = template.HTMLEscapeString(p)
+					}
+					want := "A|" + template.JSEscapeString("["+inner+"]") + "|B"
+					// any spelling of the HTML entities is fine before JS-escaping: compare after normalising both
+					norm := func(s string) string {
+						for _, r := range [][2]string{{`\u0026#34;`, `\u0026quot;`}, {`\u0026#39;`, `\u0026apos;`}} {
+							s = strings.Replace(s, r[1], r[0], -1)
+						}
+						return s
+					}
+					if norm(out) != norm(want) {
+						return "", engine.Failf("unescaped", "expected %q, got %q", want, out)
+					}
+					return "js-escaped", nil
+				})
 			}
 		}
 	case "timeformat":
